@@ -326,7 +326,7 @@ def check_history(H, case):
 
 
 RUN_TIMEOUT_S = 120
-BUDGET = {"quick": (10000, 75), "thorough": (300000, 1200)}
+BUDGET = {"quick": (10000, 75), "thorough": (220000, 1300)}
 REAL = ["pydcop.infrastructure.communication.Messaging (post_msg/next_msg/"
         "_on_computation_registration/shutdown)", "Agent (_run, clean_shutdown, add_computation)",
         "Discovery", "Directory", "InProcessCommunicationLayer"]
